@@ -612,7 +612,10 @@ def schema_scalar_checks(rep):
                          '%s() %s raised %s: %s' % (cls.__name__, name, type(e).__name__, e), replay)
                 continue
             if res is base.noValue:
-                rep.count('schema-scalar-returns-the-noValue-sentinel')     # not data: any use of it raises PyAsn1Error
+                # handing out the internal placeholder is not failing: the caller holds an object that prints, compares by
+                # identity and travels on (casts, the native encoder) as if it were the payload
+                rep.fail('schema-scalar-returns-the-noValue-sentinel-' + name, '%s() %s returned the noValue sentinel instead of raising' % (
+                    cls.__name__, name), replay)
                 continue
             rep.fail('schema-scalar-returns-data-' + name, '%s() %s returned %r' % (cls.__name__, name, res), replay)
     # comparisons between two objects: a schema object against another schema object (same class, a distinct instance;
